@@ -178,12 +178,9 @@ def polyline(rng, size):
     for _ in range(iso):
         pts.insert(rng.randrange(len(pts) + 1), [rng.uniform(-1, 1), rng.uniform(-1, 1), rng.uniform(-1, 1)])
     if iso:
-        # inserting shifts indices: simply append the isolated vertices at random positions by renumbering
-        pts2 = pts
-        n2 = len(pts2)
-        keep = sorted(rng.sample(range(n2), n))
-        remap = {i: keep[i] for i in range(n)}
-        E = [(remap[a], remap[b]) for a, b in E]
+        # the polyline lives on a random subset of n of the n+iso points (in order); the other points are isolated vertices
+        keep = sorted(rng.sample(range(len(pts)), n))
+        E = [(keep[a], keep[b]) for a, b in E]
         name += "+isolated"
     rng.shuffle(E)
     return pts, E, name
